@@ -1,3 +1,4 @@
+import KpModel.Db.MergeSelf
 import KpModel.Db.MergeLemmas
 /-!
 # C13 — merging is idempotent and merging a database with itself changes nothing
@@ -163,5 +164,59 @@ def C13_full (WellFormedPair : Db → Db → Prop) : Prop :=
 /-! Non-vacuity of the component statements -/
 example : historyMerge [⟨1, 5, ⟨some 30, none, 0⟩⟩, ⟨1, 4, ⟨some 10, none, 0⟩⟩] [⟨1, 7, ⟨some 20, none, 0⟩⟩]
     = .ok [⟨1, 5, ⟨some 30, none, 0⟩⟩, ⟨1, 7, ⟨some 20, none, 0⟩⟩, ⟨1, 4, ⟨some 10, none, 0⟩⟩] := by decide
+
+/-! ### the self-merge clause of C13, for every well-formed database -/
+
+/-- a database is well-formed for merging: the root is a group, all UUIDs (the root's included) are pairwise
+    distinct, every group carries a modification time, and no tombstone names a node that is still there -/
+structure WellFormed (d : Db) : Prop where
+  isGroup : d.root.isGroup = true
+  nodup : (uuidsL d.root.children).Nodup
+  rootFresh : d.root.uuid ∉ uuidsL d.root.children
+  timed : timedN d.root
+  noTomb : ∀ u ∈ uuidsL d.root.children, tombsContain d.tombs u = false
+
+/-- **C13 (self-merge)**: merging a well-formed database with an identical copy reports no events and leaves the
+    database — tree and tombstones — exactly as it was -/
+theorem merge_self (now : Int) (d : Db) (W : WellFormed d) : merge now d d = .ok (d, []) := by
+  obtain ⟨root, tombs⟩ := d
+  have C : SelfCtx root tombs := ⟨W.isGroup, W.nodup, W.rootFresh, W.noTomb⟩
+  cases root with
+  | entry e => have := W.isGroup; simp [Node.isGroup] at this
+  | group ru rc rt rcs =>
+    have ht := W.timed
+    simp only [timedN] at ht
+    have hroot : mergeRoot now ⟨.group ru rc rt rcs, []⟩ (.group ru rc rt rcs) = .ok ⟨.group ru rc rt rcs, []⟩ := by
+      simp [mergeRoot, bind, Except.bind, groupMergeData_self now ru rc rt ht.1, pure, Except.pure]
+    have hpass : mergePasses now tombs (.group ru rc rt rcs) (groupCount (.group ru rc rt rcs) + 1)
+        ⟨.group ru rc rt rcs, []⟩ = .ok ⟨.group ru rc rt rcs, []⟩ := by
+      unfold mergePasses
+      have := mergeGroup_self now tombs (.group ru rc rt rcs) [] C (.group ru rc rt rcs) [] W.timed (Or.inl ⟨rfl, rfl⟩)
+      simp [this, pure, Except.pure]
+    have hdel : mergeDeletions now tombs ⟨.group ru rc rt rcs, []⟩ ⟨.group ru rc rt rcs, tombs⟩
+        = .ok (⟨.group ru rc rt rcs, []⟩, tombs) := by
+      unfold mergeDeletions
+      simp only [bind, Except.bind, deleteEntries_allKnown now _ tombs tombs (tombsContain_self tombs)]
+      have hq : tombs.filter (fun d => !tombsContain tombs d.uuid) = [] := by
+        rw [List.filter_eq_nil_iff]
+        intro x hx
+        simp [tombsContain_self tombs x hx]
+      rw [hq]
+      simp [deletionFuel, deleteGroups]
+    unfold merge
+    simp only [bind, Except.bind, hroot, hpass, hdel, pure, Except.pure]
+
+
+/-- the hypotheses are satisfiable (non-vacuity): a root with an entry and a group holding a sub-group -/
+example : WellFormed ⟨.group 1 0 ⟨some 5, none, 0⟩ [.entry ⟨⟨10, 0, ⟨some 5, none, 0⟩⟩, none⟩,
+      .group 2 0 ⟨some 6, none, 0⟩ [.group 3 0 ⟨some 7, none, 0⟩ []]], [⟨99, 4⟩]⟩ := by
+  refine ⟨rfl, by decide, by decide, ?_, ?_⟩
+  · simp [timedN, timedL]
+  · intro u hu
+    have e : uuidsL (Node.children (.group 1 0 ⟨some 5, none, 0⟩ [.entry ⟨⟨10, 0, ⟨some 5, none, 0⟩⟩, none⟩,
+        .group 2 0 ⟨some 6, none, 0⟩ [.group 3 0 ⟨some 7, none, 0⟩ []]])) = [10, 2, 3] := by decide
+    rw [e] at hu
+    simp only [List.mem_cons, List.not_mem_nil, or_false] at hu
+    rcases hu with rfl | rfl | rfl <;> decide
 
 end Kp.Merge
